@@ -3,7 +3,7 @@ constants, canonicalisation chains."""
 import json
 import os
 import re
-from astu import strip, strip_all, walk, walkp, txt, short, stmts_of, functions_by, always_throws
+from astu import C, ctxt, gt_pair, eq_const, strip, strip_all, walk, walkp, txt, short, stmts_of, functions_by, always_throws
 from vlib.core import ob, VERIF
 import a4_twin
 import a4_shape
@@ -113,8 +113,9 @@ def dispatch_rule(facts):
         else:
             # comparisons `var != CONST` that throw / `var == CONST` accepted
             def v(n):
-                if n.get("k") == "Bin" and n.get("op") in ("!=", "==") and ent["on"] in txt(n["l"]) and "v" in strip(n["r"]):
-                    got.add(strip(n["r"])["v"])
+                ec = eq_const(n) if n.get("k") == "Bin" else None
+                if ec and ent["on"] in txt(ec[0]):
+                    got.add(ec[1])
             walk(fn["body"], v)
         if got == set(want):
             out.append(ob("layout.dispatch", key, fn["pat"], "discharged", "%s accepted: %s" % (ent["what"], sorted(got)), fn["qname"]))
@@ -175,7 +176,7 @@ def documented_semantics(facts):
         if rect == "datasketches::compact_theta_sketch_alloc" and fn["name"] == "deserialize_v1":
             defs = [v for v in _decls(fn) if v["n"] == "is_empty" and v.get("init") is not None]
             t = txt(defs[0]["init"]).replace(" ", "") if defs else "?"
-            ok = "(num_entries==0)" in t and "theta==" in t and "&&" in t
+            ok = t in (C("((num_entries==0)&&(theta==MAX_THETA))"), C("((num_entries==0)&&(theta==theta_constants::MAX_THETA))"))
             out.append(ob("layout.semantics", "compact_theta_sketch_alloc::deserialize_v1:legacy-empty-rule", fn["pat"], "discharged" if ok else "violated",
                           "v1 image is empty iff num_entries == 0 && theta == MAX_THETA" if ok else "v1 emptiness is decided by `%s`: a non-empty sketch with zero retained entries and theta < 1 (e.g. a disjoint intersection) would be read as empty and then ignored by unions" % t, fn["qname"]))
         if rect == "datasketches::compact_theta_sketch_parser" and fn["name"] == "parse":
@@ -195,13 +196,13 @@ def documented_semantics(facts):
                 rets = []
                 walk(case1, lambda n: rets.append(n) if n.get("k") == "If" else None)
                 t = txt(defs[0]["init"]).replace(" ", "") if defs else (txt(rets[0]["c"]).replace(" ", "") if rets else "?")
-                ok = "(num_entries==0)" in t and "theta==" in t and "&&" in t
+                ok = t in (C("((num_entries==0)&&(theta==MAX_THETA))"), C("((num_entries==0)&&(theta==theta_constants::MAX_THETA))"))
                 out.append(ob("layout.semantics", "compact_theta_sketch_parser::parse:v1-legacy-empty-rule", case1.get("loc", fn["pat"]), "discharged" if ok else "violated",
                               "v1 image is empty iff num_entries == 0 && theta == MAX_THETA" if ok else "v1 emptiness is decided by `%s` (must be num_entries == 0 && theta == MAX_THETA)" % t, fn["qname"]))
         if rect == "datasketches::compact_theta_sketch_alloc" and fn["kind"] == "ctor" and not fn.get("special") and len(fn["params"]) == 5:
             ini = [i for i in fn.get("inits", []) if i.get("field") == "is_ordered_"]
             t = txt(ini[0]["e"]).replace(" ", "") if ini else "?"
-            ok = "||" in t and "entries.size()<=1" in t
+            ok = t in (C("(is_ordered||(entries.size()<=1))"), C("((entries.size()<=1)||is_ordered)"))
             out.append(ob("layout.semantics", "compact_theta_sketch_alloc::ctor(entries):single-item-ordered", fn["pat"], "discharged" if ok else "violated",
                           "is_ordered_ = is_ordered || entries.size() <= 1: single-item images carry the ORDERED flag (documented pattern 0x1A)" if ok else "is_ordered_ is initialised with `%s`: a single-item result requested unordered is written without the ORDERED flag, which readers following the documented single-item pattern (flags & 0x1F == 0x1A) take for empty" % t, fn["qname"]))
     return out
@@ -300,7 +301,7 @@ def flag_provenance(facts):
                 want = sp.get(k2)
                 if want is None:
                     out.append(ob("layout.flags", k2, var["loc"], "unrecognised", "flag decoding `%s = %s` is not in the reviewed table (new reader code: review and add to spec/layouts.json)" % (var["n"], t), fn["qname"]))
-                elif terms == want:
+                elif sorted(C(x) for x in terms) == sorted(C(x) for x in want):
                     out.append(ob("layout.flags", k2, var["loc"], "discharged", "%s = %s" % (var["n"], " | ".join(terms)), fn["qname"]))
                 else:
                     out.append(ob("layout.flags", k2, var["loc"], "violated", "`%s` is decoded as `%s`; the documented layout derives it from %s only: images written by other implementations / earlier releases are interpreted differently" % (var["n"], " | ".join(terms), " | ".join(want)), fn["qname"]))
